@@ -40,10 +40,11 @@ def tier_n(fn, q, t):
 def oracle_sift(case, rec):
     """prefix + peel for the classic sift."""
     import emd
-    x = gens.sig_of(case['sig'])
+    x = gens.sig_of(case['sig'])            # possibly float32 / integer dtype: passed to emd as stored
     eo = {'interp_method': case['interp']}
     xo = {'pad_width': case['pad']}
     kw = dict(imf_opts=dict(case['opts']), envelope_opts=eo, extrema_opts=xo)
+    rec.cls('dtype=' + case['sig'].get('dtype', 'f8'))
     try:
         full = np.asarray(emd.sift.sift(x.copy(), **kw))
     except emd.support.EMDSiftCovergeError:
@@ -71,6 +72,7 @@ def oracle_sift(case, rec):
             raise Violation('C03/sift/nonfinite', '')
         binding += k < K
     # peel
+    x = x.astype(float)
     scale = np.abs(x).max() or 1.0
     for j in range(min(K, 10)):
         res = x - full[:, :j].sum(axis=1)
